@@ -27,7 +27,9 @@ the pair (result, final index); an `end` pointer into the same array is an index
 `p += n`, casts between byte-pointer types (a view of the array through wrapu 8 / wraps 8), integer locals declared
 without initialiser (reading one before it is assigned is rejected) are supported.
 A parameter `T *&dest` with a non-const pointee that is used only in statements `*dest++ = e` is a write-only cursor:
-the function returns the pair (result, list of the values stored, in order, each converted to T).
+the function returns the pair (result, list of the values stored, in order, each converted to T).  The pair of
+statements `std::char_traits<char>::copy(dest, A, n); dest += n;` with A a namespace-scope constant array appends the
+first n elements of A (its contents are supplied by the compiler).
 Anything else makes the translation of that function fail (reported; the obligation that mentions it then no longer
 compiles)."""
 import json
@@ -65,10 +67,11 @@ TARGETS = [
     ('write_utf16', '_ST_PRIVATE::conversion_error_t (char16_t *&, char32_t)'),
     ('utf8_convert_from_latin_1', 'void (char *, const char *, size_t)'),
     ('utf16_convert_from_utf32', '_ST_PRIVATE::conversion_error_t (char16_t *, const char32_t *, size_t, ST::utf_validation_t)'),
+    ('utf8_convert_from_utf32', '_ST_PRIVATE::conversion_error_t (char *, const char32_t *, size_t, ST::utf_validation_t)'),
 ]
 # a pointer parameter that points into the array of another parameter (one past its end): it is passed as an index
 # functions whose first `T *` parameter with a non-const pointee is a write-only cursor (used only as `*p++ = e`)
-PLAIN_CURSOR_FUNCS = ('utf8_convert_from_latin_1', 'utf16_convert_from_utf32')
+PLAIN_CURSOR_FUNCS = ('utf8_convert_from_latin_1', 'utf16_convert_from_utf32', 'utf8_convert_from_utf32')
 ALIAS_PARAMS = {('extract_utf8', 'end'): 'utf8', ('extract_utf16', 'end'): 'utf16'}
 # a translated function that returns a pointer returns it into the array of this parameter
 RET_BASE_PARAM = 0
@@ -109,6 +112,7 @@ class Translator:
         self.enum_types = {}   # enum type name -> (signed, bits)
         self.funcs = {}        # (name, qualType) -> node
         self.ext_consts = {}   # qualified name -> None (to be evaluated)
+        self.ext_arrays = {}   # namespace-scope constant arrays whose contents the compiler supplies
         self.named_consts = {} # name -> value (enumerators, named integral constants of case labels)
         self.fields, self.field_order = {}, []
         self.index(root, [])
@@ -773,6 +777,28 @@ class Translator:
             env2 = dict(env)
             env2[('out', self.out_cursor)] = '(%s ++ [%s])' % (env[('out', self.out_cursor)], v)
             return self.with_binds(binds, self.stmts(rest, env2))
+        if self.out_cursor is not None and k == 'CallExpr' and call_name(s) == 'copy' and len(inner) == 4 \
+                and is_ref_to(inner[1], self.out_cursor):
+            arr = inner[2]
+            while arr.get('kind') in ('ImplicitCastExpr', 'ParenExpr'):
+                arr = arr['inner'][0]
+            rd = arr.get('referencedDecl') or {}
+            if arr.get('kind') != 'DeclRefExpr' or rd.get('kind') != 'VarDecl' or rd.get('id') in env:
+                raise Unsupported('copy from something that is not a namespace-scope array')
+            self.ext_arrays[rd['name']] = None
+            nlen, _, _ = self.full_expr(inner[3], env)
+            env2 = dict(env)
+            key = ('out', self.out_cursor)
+            env2[key] = '(%s ++ firstn (Z.to_nat %s) ext_arr_%s)' % (env[key], nlen, rd['name'])
+            env2[('copylen',)] = nlen
+            return self.stmts(rest, env2)
+        if self.out_cursor is not None and k == 'CompoundAssignOperator' and s.get('opcode') == '+=' and is_ref_to(inner[0], self.out_cursor):
+            e, _, _ = self.full_expr(inner[1], env)
+            if env.get(('copylen',)) != e:
+                raise Unsupported('advance of the output cursor that does not follow a copy of the same length')
+            env2 = dict(env)
+            del env2[('copylen',)]
+            return self.stmts(rest, env2)
         if k == 'CStyleCastExpr' and n_cast_to_void(s):
             _, pend, binds = self.full_expr(inner[0], env, allow_pending=True)
             lets, env2 = self.apply_pending(pend, env)
@@ -977,6 +1003,20 @@ def is_cursor_store(lhs, vid):
     return y.get('kind') == 'DeclRefExpr' and (y.get('referencedDecl') or {}).get('id') == vid
 
 
+def call_name(n):
+    inner = [c for c in (n.get('inner') or []) if isinstance(c, dict)]
+    c = inner[0] if inner else {}
+    while c.get('kind') in ('ImplicitCastExpr', 'ParenExpr'):
+        c = c['inner'][0]
+    return (c.get('referencedDecl') or {}).get('name')
+
+
+def is_ref_to(n, vid):
+    while n.get('kind') in ('ImplicitCastExpr', 'ParenExpr'):
+        n = n['inner'][0]
+    return n.get('kind') == 'DeclRefExpr' and (n.get('referencedDecl') or {}).get('id') == vid
+
+
 def contains_store(n, vid):
     if not isinstance(n, dict):
         return False
@@ -1043,6 +1083,29 @@ def eval_constants(names, inc, cfg, namespaces=('_ST_PRIVATE', 'ST')):
     return out
 
 
+def eval_arrays(names, inc, cfg):
+    out = {}
+    if not names:
+        return out
+    with tempfile.TemporaryDirectory() as d:
+        src = os.path.join(d, 'a.cpp')
+        with open(src, 'w') as f:
+            f.write('#include <string_theory/string>\n#include <string_theory/codecs>\n#include <string_theory/format>\n#include <cstdio>\n')
+            f.write('int main() {\n')
+            for n in sorted(names):
+                f.write('  std::printf("%s"); for (size_t i = 0; i < sizeof(_ST_PRIVATE::%s) / sizeof(_ST_PRIVATE::%s[0]); ++i) '
+                        'std::printf(" %%lld", (long long)_ST_PRIVATE::%s[i]); std::printf("\\n");\n' % (n, n, n, n))
+            f.write('}\n')
+        exe = os.path.join(d, 'a')
+        p = subprocess.run(['g++', '-std=c++20', '-I' + inc, '-I' + cfg, src, '-o', exe], stdout=subprocess.PIPE, stderr=subprocess.STDOUT)
+        if p.returncode != 0:
+            raise Unsupported('cannot evaluate arrays %s: %s' % (sorted(names), p.stdout.decode()[-400:]))
+        for line in subprocess.run([exe], stdout=subprocess.PIPE).stdout.decode().splitlines():
+            t = line.split()
+            out[t[0]] = [int(x) for x in t[1:]]
+    return out
+
+
 def generate(root, inc, cfg):
     """returns (coq text, list of (function, error))"""
     tr = Translator(root)
@@ -1067,6 +1130,11 @@ def generate(root, inc, cfg):
     except Unsupported as e:
         errors.append(('<constants>', str(e)))
     lines = [PRELUDE]
+    try:
+        for k, vals in sorted(eval_arrays(tr.ext_arrays, inc, cfg).items()):
+            lines.append('Definition ext_arr_%s : list Z := [%s].' % (k, '; '.join('(%d)' % v for v in vals)))
+    except Unsupported as e:
+        errors.append(('<arrays>', str(e)))
     for k in sorted(consts):
         lines.append('Definition ext_%s : Z := (%d).' % (k, consts[k]))
     for k in sorted(tr.named_consts):
